@@ -46,6 +46,7 @@ func main() {
 		f.Close()
 	case "run":
 		rec := newRecorder(*out)
+		startWatchdog(rec)
 		cnt := 0
 		readNDJSON(*in, func(line []byte) {
 			run(*family, line, rec, *opt)
@@ -107,5 +108,17 @@ func runStreamFamily(family string, sc *streamScenario, rec *recorder, opt strin
 		runSkip(sc, rec)
 	case "rewind":
 		runRewind(sc, rec)
+	case "reader":
+		lvl := 1
+		if opt == "deep" {
+			lvl = 2
+		}
+		runReader(sc, rec, lvl)
+	case "robust":
+		lvl := 1
+		if opt == "deep" {
+			lvl = 2
+		}
+		runRobust(sc, rec, lvl)
 	}
 }
